@@ -252,7 +252,7 @@ func (c *Ctx) load(s *State, sh *PtrShape) []Term {
 		if arr, ok := sh.Typ.Underlying().(*types.Array); ok && !types.Identical(sh.Typ, sh.Root) {
 			// whole array value read element by element
 			var res []Term
-			el := &PtrShape{Kind: pElem, Ref: sh.Ref, Root: sh.Root, Off: 0, Typ: arr.Elem()}
+			el := &PtrShape{Kind: pElem, Ref: sh.Ref, Root: sh.Root, Off: 0, Typ: arr.Elem(), View: sh.View}
 			for j := int64(0); j < arr.Len(); j++ {
 				el.Idx = Add(sh.Idx, IntLit(j))
 				res = append(res, c.load(s, el)...)
@@ -264,7 +264,11 @@ func (c *Ctx) load(s *State, sh *PtrShape) []Term {
 			key := arrKey(sh.Root, sh.Off+k)
 			h := c.heapGet(s, key, c.heapSort(key, lay[sh.Off+k]))
 			bounds[k] = c.allocBound(s, h)
-			out[k] = Select(Select(h, sh.Ref), sh.Idx)
+			if sh.View.S != "" && sh.View.S != "0" {
+				out[k] = Select(c.shiftView(Select(h, sh.Ref), sh.View), sh.Idx)
+			} else {
+				out[k] = Select(Select(h, sh.Ref), sh.Idx)
+			}
 		}
 	}
 	for k := range out {
@@ -304,7 +308,7 @@ func (c *Ctx) store(s *State, sh *PtrShape, vals []Term) {
 		}
 	case pElem:
 		if arr, ok := sh.Typ.Underlying().(*types.Array); ok && !types.Identical(sh.Typ, sh.Root) {
-			el := &PtrShape{Kind: pElem, Ref: sh.Ref, Root: sh.Root, Off: 0, Typ: arr.Elem()}
+			el := &PtrShape{Kind: pElem, Ref: sh.Ref, Root: sh.Root, Off: 0, Typ: arr.Elem(), View: sh.View}
 			w := len(layout(arr.Elem()))
 			for j := int64(0); j < arr.Len(); j++ {
 				el.Idx = Add(sh.Idx, IntLit(j))
@@ -316,7 +320,11 @@ func (c *Ctx) store(s *State, sh *PtrShape, vals []Term) {
 		for k := 0; k < n; k++ {
 			key := arrKey(sh.Root, sh.Off+k)
 			h := c.heapGet(s, key, c.heapSort(key, lay[sh.Off+k]))
-			inner := Store(Select(h, sh.Ref), sh.Idx, vals[k])
+			ix := sh.Idx
+			if sh.View.S != "" && sh.View.S != "0" {
+				ix = Add(sh.View, sh.Idx)
+			}
+			inner := Store(Select(h, sh.Ref), ix, vals[k])
 			c.setHeap(s, key, c.define("heap", Store(h, sh.Ref, inner)))
 		}
 	}
